@@ -34,3 +34,40 @@ def classify_c01(cfg, kind, key, info):
     if not any(p[m] in (0, size - 1) for (m, size) in mains):
       return None
   return "KF-C01-a"
+
+
+def classify_c04(cfg, fail, w_in, w_out, fin):
+  """KF-C04-a: monotonicity AND convexity AND a bound: _finalize_constraints
+  only rescales the heights (never moves the bias, and skips the rescale when
+  output_max - bias <= 1e-3), so outputs leave the bounds.  Recognised through
+  the hook on _finalize_constraints: in the increasing-normalised frame the
+  entering bias is below the lower bound (lower failure) or above
+  upper - 1e-3 (upper failure), and the returned bias equals the entering one.
+  KF-C04-b: zero projection iterations with a clamp and no convexity: the loop
+  never runs and the finalisation downgrades CLAMPED to BOUND."""
+  import numpy as np
+  mono, conv = cfg["mono"], cfg["conv"]
+  kind, u = fail["kind"], fail["unit"]
+  if kind in ("clamp_min", "clamp_max"):
+    if cfg["iters"] == 0 and conv == 0 and mono != 0:
+      return "KF-C04-b"
+    return None
+  if kind in ("lower", "upper") and mono != 0 and conv != 0 and fin is not None:
+    bias_in = float(np.asarray(fin["bias_in"]).reshape(1, -1)[0, u])
+    bias_out = float(np.asarray(w_out, dtype=np.float64)[0, u])
+    scale = max(1.0, abs(bias_in), abs(bias_out))
+    if abs(bias_in - bias_out) > 1e-6 * scale:
+      return None
+    omin, omax = cfg.get("omin"), cfg.get("omax")
+    if mono == 1:
+      b, lo, hi = bias_in, omin, omax
+      lo_fail = kind == "lower"
+    else:
+      b = -bias_in
+      lo = -omax if omax is not None else None
+      hi = -omin if omin is not None else None
+      lo_fail = kind == "upper"
+    if lo_fail:
+      return "KF-C04-a" if (lo is not None and b < lo) else None
+    return "KF-C04-a" if (hi is not None and b > hi - 1e-3 - 1e-6 * scale) else None
+  return None
